@@ -277,6 +277,23 @@ def run(chk):
     r6.require(1, "rule")
 
 
+def closures_handed_over(f, call):
+    """the lambda expressions among a call's arguments, written in place or held in a local first (`auto loop = [..](..) {..}; make_compiled_node(.., std::move(loop))`)"""
+    from ..paths import ref_inits
+    locs = None
+    out = []
+    for a in call.get("args") or []:
+        for x in walk(a):
+            if x.get("k") == "lambda":
+                out.append(x)
+            elif x.get("k") == "ref" and x.get("rk") == "local":
+                locs = locs if locs is not None else ref_inits(f)
+                v = locs.get(x.get("vid"))
+                if v is not None and v.get("init") is not None:
+                    out += [y for y in walk(v["init"]) if y.get("k") == "lambda"]
+    return out
+
+
 def compiled_closure_captures(prog):
     """closures handed to make_compiled_node live inside the syntax tree and are shared by every evaluation (and every thread): what they capture must be
     immutable plain values -> list of (function, lambda node, capture name, type, ok)"""
@@ -288,7 +305,7 @@ def compiled_closure_captures(prog):
         for n in walk(f["body"]):
             if not (n.get("k") == "call" and n.get("name") == "make_compiled_node"):
                 continue
-            for lam in (x for a in n.get("args") or [] for x in walk(a) if x.get("k") == "lambda"):
+            for lam in closures_handed_over(f, n):
                 for c in lam.get("caps", []):
                     t = prog.T(f, c.get("t")) if c.get("t") is not None else "?"
                     key = (strip_targs(f["q"]), c.get("name"))
